@@ -49,7 +49,8 @@ func AllGCfg(bufs ...int) []GCfg {
 // Msg builds a message with a fixed UUID, a payload derived from it and one metadata entry.
 func Msg(uuid string) *message.Message {
 	m := message.NewMessage(uuid, []byte("payload-"+uuid))
-	m.Metadata.Set("k", "v-"+uuid)
+	m.Metadata["k"] = "v-" + uuid
+	m.Metadata["empty"] = "" // an empty value is a value: it travels like any other
 	return m
 }
 
